@@ -597,4 +597,180 @@ theorem all_nonempty {rows : List SRow} (hc : (rows.map SRow.readers).Pairwise (
       have : row.slots = [] := by simp [e] at hl; exact hl
       exact hne this
 
+/-! ### Numbered writes: `indexOfHead(index, write)` / `setCell` as one recursive fill, against `credit` -/
+
+/-- Fill column `i` of the row of write `w` if its cell there is nil. -/
+def wfill (i w : Nat) (a : Fill) : List Nat → List Row → Option (List Row)
+  | _, [] => none
+  | [], _ :: _ => none
+  | w' :: ws, row :: rest =>
+    if w' ≠ w ∨ row.length ≤ i then (wfill i w a ws rest).map (row :: ·)
+    else if cellNil row i then some (row.set i (some a) :: rest)
+    else (wfill i w a ws rest).map (row :: ·)
+
+theorem indexOfWrite_cons (i w w' : Nat) (ws : List Nat) (row : Row) (rest : List Row) :
+    indexOfWrite i w (w' :: ws) (row :: rest) =
+      if w' ≠ w ∨ row.length ≤ i then (indexOfWrite i w ws rest).succ
+      else if cellNil row i then .found 0 else (indexOfWrite i w ws rest).succ := by
+  simp only [indexOfWrite]
+  by_cases h : w' ≠ w ∨ row.length ≤ i
+  · simp [h]
+  · have hlt : i < row.length := by
+      have := fun hh => h (Or.inr hh)
+      omega
+    simp only [h, if_false, cellNil, List.getElem?_eq_getElem hlt]
+    cases row[i] <;> simp
+
+theorem indexOfWrite_ne_panic (i w : Nat) (ws : List Nat) (rows : List Row) (hl : ws.length = rows.length) :
+    indexOfWrite i w ws rows ≠ .panic := by
+  induction rows generalizing ws with
+  | nil => cases ws <;> simp [indexOfWrite]
+  | cons row rest ih =>
+    cases ws with
+    | nil => simp at hl
+    | cons w' ws =>
+      rw [indexOfWrite_cons]
+      have := ih ws (by simpa using hl)
+      split
+      · cases h : indexOfWrite i w ws rest <;> simp_all [Find.succ]
+      · split
+        · simp
+        · cases h : indexOfWrite i w ws rest <;> simp_all [Find.succ]
+
+theorem indexOfWrite_notFound {i w : Nat} {ws : List Nat} {rows : List Row} (a : Fill)
+    (h : indexOfWrite i w ws rows = .notFound) : wfill i w a ws rows = none := by
+  induction rows generalizing ws with
+  | nil => cases ws <;> rfl
+  | cons row rest ih =>
+    cases ws with
+    | nil => rfl
+    | cons w' ws =>
+      rw [indexOfWrite_cons] at h
+      simp only [wfill]
+      split at h
+      · rename_i hc
+        rw [if_pos hc]
+        cases h' : indexOfWrite i w ws rest <;> simp_all [Find.succ]
+      · rename_i hc
+        rw [if_neg hc]
+        split at h
+        · simp at h
+        · rename_i hn
+          simp only [hn, Bool.false_eq_true, if_false]
+          cases h' : indexOfWrite i w ws rest <;> simp_all [Find.succ]
+
+theorem indexOfWrite_found {i w h : Nat} {ws : List Nat} {rows : List Row} (a : Fill)
+    (hf : indexOfWrite i w ws rows = .found h) :
+    ∃ rows', setCell rows h i a = some rows' ∧ wfill i w a ws rows = some rows' ∧
+      (h ≠ 0 → ∃ row rest rest', rows = row :: rest ∧ rows' = row :: rest') := by
+  induction rows generalizing ws h with
+  | nil => cases ws <;> simp [indexOfWrite] at hf
+  | cons row rest ih =>
+    cases ws with
+    | nil => simp [indexOfWrite] at hf
+    | cons w' ws =>
+      rw [indexOfWrite_cons] at hf
+      simp only [wfill]
+      have hrec : (indexOfWrite i w ws rest).succ = .found h →
+          ∃ rows', setCell (row :: rest) h i a = some rows' ∧
+            (wfill i w a ws rest).map (row :: ·) = some rows' ∧
+            (h ≠ 0 → ∃ row' rest0 rest', row :: rest = row' :: rest0 ∧ rows' = row' :: rest') := by
+        intro hs
+        cases h' : indexOfWrite i w ws rest with
+        | found k =>
+          simp only [h', Find.succ] at hs
+          injection hs with hs; subst hs
+          obtain ⟨rows', h1, h2, _⟩ := ih h'
+          exact ⟨row :: rows', by rw [setCell_succ, h1]; rfl, by simp [h2], fun _ => ⟨row, rest, rows', rfl, rfl⟩⟩
+        | notFound => simp [h', Find.succ] at hs
+        | panic => simp [h', Find.succ] at hs
+      split at hf
+      · rename_i hc
+        rw [if_pos hc]; exact hrec hf
+      · rename_i hc
+        rw [if_neg hc]
+        split at hf
+        · rename_i hn
+          injection hf with hf; subst hf
+          refine ⟨row.set i (some a) :: rest, ?_, by simp [hn], fun h => absurd rfl h⟩
+          simp [setCell, cellNil_lt hn]
+        · rename_i hn
+          simp only [hn, Bool.false_eq_true, if_false]
+          exact hrec hf
+
+theorem wfill_none_of_ne {i w : Nat} {a : Fill} {ws : List Nat} {rows : List Row} (h : ∀ w' ∈ ws, w' ≠ w) :
+    wfill i w a ws rows = none := by
+  induction rows generalizing ws with
+  | nil => cases ws <;> rfl
+  | cons row rest ih =>
+    cases ws with
+    | nil => rfl
+    | cons w' ws =>
+      simp only [wfill]
+      have h1 : w' ≠ w := h w' (by simp)
+      rw [if_pos (Or.inl h1), ih (fun x hx => h x (by simp [hx]))]
+      rfl
+
+/-- The model's fill by write number and column is the specification's `credit` by write id and
+reader id. -/
+theorem wfill_credit {srows : List SRow} {linked : List RId} {r : RId} {i : Nat} (w : Nat) (a : Fill)
+    (hp : ∀ p ∈ srows.map SRow.readers, p <+: linked) (hnd : linked.Nodup) (hi : indexOf r linked = some i)
+    (hw : (srows.map (·.wid)).Pairwise (· < ·)) :
+    wfill i w a (srows.map (·.wid)) (srows.map SRow.cells) = (credit w r a srows).map (·.map SRow.cells) := by
+  induction srows with
+  | nil => rfl
+  | cons row rest ih =>
+    have hrow : row.readers <+: linked := hp _ (by simp)
+    have hrest : ∀ p ∈ rest.map SRow.readers, p <+: linked := fun p hp' => hp p (by simp at hp' ⊢; exact Or.inr hp')
+    simp only [List.map_cons, List.pairwise_cons] at hw
+    have ihr := ih hrest hw.2
+    simp only [List.map_cons, wfill, credit]
+    by_cases hwid : row.wid = w
+    · have hnone : wfill i w a (rest.map (·.wid)) (rest.map SRow.cells) = none :=
+        wfill_none_of_ne (fun w' hw' => by have := hw.1 w' hw'; omega)
+      have howes := owes_eq_cellNil hrow hnd hi
+      rw [if_pos hwid]
+      by_cases hlen : row.cells.length ≤ i
+      · have hc : cellNil row.cells i = false := cellNil_of_le hlen
+        rw [if_pos (Or.inr hlen), hnone, howes, hc]; rfl
+      · have hcond : ¬ (row.wid ≠ w ∨ row.cells.length ≤ i) := by
+          intro h; rcases h with h | h
+          · exact h hwid
+          · exact hlen h
+        rw [if_neg hcond, howes]
+        by_cases hc : cellNil row.cells i = true
+        · have hnd' : row.readers.Nodup := hnd.sublist hrow.sublist
+          have hix := indexOf_prefix hrow hi hnd
+          have hl : i < row.readers.length := by
+            have := cellNil_lt hc
+            simpa [SRow.cells, SRow.readers] using this
+          rw [if_pos hl] at hix
+          simp only [hc, if_true, Option.map_some, List.map_cons, Option.some.injEq, List.cons.injEq, and_true]
+          exact (fill_cells a hnd' hix).symm
+        · have hc' : cellNil row.cells i = false := by simpa using hc
+          simp [hc', hnone]
+    · rw [if_pos (Or.inl hwid), if_neg hwid, ihr]
+      cases credit w r a rest <;> simp
+
+theorem credit_shape {w : Nat} {r : RId} {a : Fill} {rows rows' : List SRow} (h : credit w r a rows = some rows') :
+    rows'.map SRow.readers = rows.map SRow.readers ∧ rows'.map (·.wid) = rows.map (·.wid) ∧
+    ∃ row ∈ rows, row.wid = w ∧ row.owes r = true := by
+  induction rows generalizing rows' with
+  | nil => simp [credit] at h
+  | cons row tl ih =>
+    simp only [credit] at h
+    split at h
+    · rename_i hw
+      split at h
+      · rename_i ho
+        injection h with h; subst h
+        exact ⟨by simp [fill_readers'], by simp [SRow.fill], row, by simp, hw, ho⟩
+      · simp at h
+    · cases hc : credit w r a tl with
+      | none => simp [hc] at h
+      | some tl' =>
+        simp only [hc, Option.map_some, Option.some.injEq] at h; subst h
+        obtain ⟨h1, h2, row', hm, h3, h4⟩ := ih hc
+        exact ⟨by simp [h1], by simp [h2], row', by simp [hm], h3, h4⟩
+
 end Uniflow.WriterProofs
